@@ -55,6 +55,7 @@ Definition dispatch_core (op : string) (a : list arg) : list arg :=
   else if op =? "schnorrsig_sign_custom" then
     schnorrsig_sign_custom P (B 0) (B 1)
       (match nth_arg 2%nat a with ABytes magic => Some (magic, I 3, O 4) | _ => None end)
+  else if op =? "nonce_function_bip340" then nonce_function_bip340_direct (B 0) (B 1) (B 2) (O 3) (O 4)
   else if op =? "schnorrsig_verify" then schnorrsig_verify P (B 0) (B 1) (B 2)
   else if op =? "sha256" then [ABytes (sha256 (B 0))]
   else if op =? "hmac_sha256" then [ABytes (hmac_sha256 (B 0) (B 1))]
